@@ -190,6 +190,20 @@ def run(ctx):
             nontriv += bool(r1[1]['shapes'] and any(len(s['stmts']) > 1 for s in r1[1]['shapes']))
             check_pair(opt, cfg, cfg2, r1[1], r2[1], r1[2], t2, g, viol)
             stats["ratio_texts_checked"] += ratio_texts(r1[1], cfg, viol, g)
+        # output sink on a result longer than the serializer's 5000-line buffer
+        from shexer.shaper import Shaper
+        nclasses = 1300
+        big = "".join("<http://example.org/n%d> <%s> <http://example.org/K%d> .\n<http://example.org/n%d> <http://example.org/p> \"v\" .\n"
+                      % (i, RDF_TYPE, i, i) for i in range(nclasses))
+        path = os.path.join(tmpdir, "big.shex")
+        t_str = Shaper(raw_graph=big, all_classes_mode=True).shex_graph(string_output=True)
+        Shaper(raw_graph=big, all_classes_mode=True).shex_graph(output_file=path)
+        t_file = open(path).read()
+        stats["big_output_lines"] = t_str.count("\n")
+        if t_str != t_file:
+            viol.append({"what": "option sink: file output differs from string output on a large result",
+                         "lines_string": t_str.count("\n"), "lines_file": t_file.count("\n"),
+                         "how_to_replay": "%d one-instance classes, all_classes_mode, shex_graph(string_output=True) vs shex_graph(output_file=f)" % nclasses})
     finally:
         import shutil
         shutil.rmtree(tmpdir, ignore_errors=True)
